@@ -28,6 +28,59 @@ def opt(x):
     return '-' if x is None else str(x)
 
 
+def derive_oracle(chk, case, raw, prop):
+    """what the properties say about the derived call parameters, stated directly: an explicit chunk size is used as it is; the
+    default look-ahead bound is 2 * n_jobs * ceil(chunk size)"""
+    if raw is None:
+        return
+    cs2, ma2 = raw
+    nj, cs, ma = case['n_jobs'], case['chunk_size'], case['max_tasks_active']
+    if prop == 'C14' and cs is not None and cs2 is not None and float(cs2) != float(cs):
+        chk.violation('explicit_chunk_size_used', case, {'derived_chunk_size': cs2}, f'chunks of exactly the requested size {cs}', input_class='derived_chunk_size')
+    if prop == 'C15' and ma is None and cs2 is not None and ma2 is not None:
+        want = nj * math.ceil(cs2) * 2
+        if int(ma2) != want:
+            chk.violation('default_lookahead_bound', case, {'derived_max_tasks_active': ma2, 'derived_chunk_size': cs2},
+                          f'default max_tasks_active == 2 * n_jobs * ceil(chunk size) == {want}', input_class='default_bound')
+
+
+def derive_suite(chk, drv, n_cases, prop):
+    """check_map_parameters vs Mpire.deriveChunkSize / deriveMaxActive, plus the direct oracles of `prop`"""
+    from mpire.params import WorkerPoolParams, check_map_parameters
+    rng = chk.rng
+    lines3, impl3, cases3, raw3 = [], [], [], []
+    for _ in range(n_cases):
+        nj = rng.randint(1, 9)
+        n = rng.choice([0, 1, 2, rng.randint(0, 50), rng.randint(0, 5000)])
+        sized = rng.random() < .7
+        lim = rng.choice([None, None, n, rng.randint(0, n + 3)])
+        cs = rng.choice([None, None, rng.randint(1, 20), rng.uniform(1, 20)])
+        ns = rng.choice([None, rng.randint(1, 40)])
+        ma = rng.choice([None, rng.randint(1, 50)])
+        pp = WorkerPoolParams(nj, None)
+        it = list(range(n)) if sized else iter(range(n))
+        try:
+            n_tasks, ma2, cs2, _, _ = check_map_parameters(pp, it, lim, ma, cs, ns, None, False, None, None, None, None, None)
+            il = f'ok cs={cs_tok(cs2)} ma={ma2}'
+            raw3.append((cs2, ma2))
+        except Exception as e:  # noqa
+            il = 'exc ' + type(e).__name__
+            raw3.append(None)
+        nt = lim if lim is not None else (n if sized else None)
+        lines3.append(f'derive nt={opt(nt)} cs={cs_tok(cs)} ns={opt(ns)} nj={nj} ma={opt(ma)}')
+        impl3.append(il)
+        cases3.append({'n_jobs': nj, 'n': n, 'sized': sized, 'iterable_len': lim, 'chunk_size': cs, 'n_splits': ns, 'max_tasks_active': ma})
+    out3 = drv.run(lines3)
+    for case, il, ml, raw in zip(cases3, impl3, out3, raw3):
+        chk.count('check_map_parameters', key=tuple(sorted((k, str(v)) for k, v in case.items())), nontrivial=True, sample=dict(case, impl=il),
+                  chunk_size='none' if case['chunk_size'] is None else type(case['chunk_size']).__name__,
+                  max_tasks_active='none' if case['max_tasks_active'] is None else 'given',
+                  both_chunk_size_and_n_splits=case['chunk_size'] is not None and case['n_splits'] is not None)
+        if il != ml:
+            chk.mismatch('check_map_parameters vs Mpire.deriveChunkSize/deriveMaxActive', case, il, ml)
+        derive_oracle(chk, case, raw, prop)
+
+
 def nudge(x, k):
     for _ in range(abs(k)):
         x = math.nextafter(x, math.inf if k > 0 else -math.inf)
@@ -233,32 +286,22 @@ def run(chk):
     # ---- suite 3: check_map_parameters derivation ----
     from mpire.params import WorkerPoolParams, check_map_parameters
     lines3, impl3, cases3 = [], [], []
-    for _ in range(400 if chk.tier == 'quick' else 4000):
-        nj = rng.randint(1, 9)
-        n = rng.choice([0, 1, 2, rng.randint(0, 50), rng.randint(0, 5000)])
-        sized = rng.random() < .7
-        lim = rng.choice([None, None, n, rng.randint(0, n + 3)])
-        cs = rng.choice([None, None, rng.randint(1, 20), rng.uniform(1, 20)])
-        ns = rng.choice([None, rng.randint(1, 40)])
-        ma = rng.choice([None, rng.randint(1, 50)])
-        pp = WorkerPoolParams(nj, None)
-        it = list(range(n)) if sized else iter(range(n))
+    derive_suite(chk, drv, 400 if chk.tier == 'quick' else 4000, 'C14')
+    # the chunking a pool call ends up with (parameter derivation + chunker of /repo) vs the documented rule written out independently
+    from harness import gen, oracles
+    for _ in range(1500 if chk.tier == 'quick' else 20000):
+        nj = rng.choice([1, 2, 3, 4, 5, 8])
+        op = gen.gen_map_op(rng, nj)
+        op = {k: v for k, v in op.items() if k in ('op', 'n', 'input', 'chunk_size', 'n_splits', 'iterable_len', 'max_tasks_active')}
+        want = oracles.ref_chunks(op, nj)
         try:
-            n_tasks, ma2, cs2, _, _ = check_map_parameters(pp, it, lim, ma, cs, ns, None, False, None, None, None, None, None)
-            il = f'ok cs={cs_tok(cs2)} ma={ma2}'
+            got = oracles.repo_chunks(op, nj)
         except Exception as e:  # noqa
-            il = 'exc ' + type(e).__name__
-        nt = lim if lim is not None else (n if sized else None)
-        lines3.append(f'derive nt={opt(nt)} cs={cs_tok(cs)} ns={opt(ns)} nj={nj} ma={opt(ma)}')
-        impl3.append(il)
-        cases3.append({'n_jobs': nj, 'n': n, 'sized': sized, 'iterable_len': lim, 'chunk_size': cs, 'n_splits': ns, 'max_tasks_active': ma})
-    out3 = drv.run(lines3)
-    for case, il, ml in zip(cases3, impl3, out3):
-        chk.count('check_map_parameters', key=tuple(sorted((k, str(v)) for k, v in case.items())), nontrivial=True, sample=dict(case, impl=il),
-                  chunk_size='none' if case['chunk_size'] is None else type(case['chunk_size']).__name__,
-                  max_tasks_active='none' if case['max_tasks_active'] is None else 'given')
-        if il != ml:
-            chk.mismatch('check_map_parameters vs Mpire.deriveChunkSize/deriveMaxActive', case, il, ml)
+            got = 'exc ' + type(e).__name__ + ': ' + str(e)[:80]
+        chk.count('chunks of a pool call (check_map_parameters + chunk_tasks / apply_numpy_chunking) vs the documented rule', key=str(sorted(op.items())) + str(nj),
+                  nontrivial=op['n'] >= 2, sample={'op': op, 'n_jobs': nj}, input=op.get('input'), max_tasks_active='given' if op.get('max_tasks_active') else 'default')
+        if got != want:
+            chk.violation('chunks_as_documented', {'op': op, 'n_jobs': nj}, {'chunks': str(got)[:300]}, 'chunks == ' + str(want)[:300], input_class='pool_chunking')
 
     chk.assumptions += [
         'size clauses (k / floor,ceil / min(n,s) balanced) are proved for exact rational arithmetic; for IEEE doubles they are tied per run by '
